@@ -110,7 +110,11 @@ def conclude(pid, P, tier, seed, results, wall):
 
     exit_code = 0
     replay_paths = []
+    seen_v = set()
     for unit, o, confirmed in violations:
+        if o['name'] in seen_v:
+            continue
+        seen_v.add(o['name'])
         rec = {'property': pid, 'unit': unit, 'obligation': o['name'], 'statement': o.get('text'),
                'kind': 'contract' if '::' in str(unit) and not o.get('replay_cmd') else 'custom',
                'target': unit, 'confirmed_on_real_code': confirmed,
